@@ -90,6 +90,7 @@ GROW = {
     "alog": (["4"], ["alog.log"], [], "alog.log"),
 }
 WEAK_FAIL = {"trie.insert"}     # a failed call may keep what it acquired (owned by the object)
+MUST_REPORT = {"sockh.addctx"}  # inserters that hand a resource over: a dropped hand-over must be reported
 
 
 def build(ctx):
@@ -161,6 +162,27 @@ def gen_cases(ctx):
                     if not quick or n <= 3:
                         for k1, k2 in itertools.combinations(range(1, 6), 2):
                             cases.append(pre + ["fault %d %d" % (k1, k2), op, op, op, destroy])
+    # socket handle: hand contexts over to an event loop
+    for ev in ("3 0 2", "2 1 2"):
+        for n in range(0, 4):
+            pre = ["evloop.new " + ev, "sockh.init"] + ["sockh.addctx"] * n
+            for k in range(0, 3):
+                flt = "fault %d" % k if k else "fault"
+                cases.append(pre + [flt, "sockh.addctx", "sockh.destroy", "evloop.delete"])
+                cases.append(pre + [flt, "sockh.addctx", "sockh.addctx", "evloop.add", "evloop.delete", "sockh.destroy"])
+    for _ in range(30 if quick else 600):
+        ops = ["evloop.new %d %d 3" % (rng.choice([1, 2, 3]), rng.choice([0, 1])), "sockh.init"]
+        for _i in range(rng.choice([3, 8, 20])):
+            r = rng.random()
+            if r < 0.3:
+                ks = sorted(set(rng.choice([1, 1, 2, 3, 4]) for _j in range(rng.choice([1, 1, 2]))))
+                ops.append("fault " + " ".join(map(str, ks)))
+            elif r < 0.8:
+                ops.append("sockh.addctx")
+            else:
+                ops.append("evloop.add")
+        ops += ["sockh.destroy", "evloop.delete"]
+        cases.append(ops)
     for k in range(0, 3):
         for n in (1, 2, 7, 64):
             cases.append(["fault %d" % k if k else "fault", "msort %d" % n, "msort %d" % n])
@@ -221,6 +243,7 @@ def gen_cases(ctx):
         ["htab.init 8 0", "htab.put 1", "htab.put 1", "htab.remove 9", "htab.destroy"],
         ["evloop.new 2 0 1", "evloop.add", "evloop.add", "evloop.add", "evloop.delete"],
         ["ffctl.init 0 4", "ffctl.destroy"], ["ffctl.init 1 0", "ffctl.destroy"], ["evpipe.destroy"], ["sock.close"],
+        ["sockh.addctx"], ["sockh.init", "sockh.addctx", "sockh.destroy"], ["evloop.new 3 0 2", "sockh.addctx", "evloop.delete"],
         ["chan.destroy"], ["mpool.alloc"], ["evloop.add"], ["alog.log"], ["nonsense 1 2"], ["trie.insert a"],
         ["chan.init 4 0", "chan.init 4 0", "chan.destroy", "chan.destroy"],
         ["llist.remove", "llist.init 0", "llist.remove", "llist.destroy", "llist.insert"],
@@ -252,6 +275,9 @@ def judge_detail(ops, out):
         ret, inj, acq, mem, fds, st = m.group(1), int(m.group(2)), int(m.group(3)), int(m.group(4)), int(m.group(5)), m.group(6)
         dinj = inj - prev[0]
         fam = fam_of(name)
+        if dinj > 0 and ret == "void" and name in MUST_REPORT:
+            return ("%s: an acquisition failed during the call and the call cannot report it (void): the "
+                    "handed-over context is silently dropped (state %s)" % (op, st), name + ":failure-not-reported")
         if dinj > 0 and ret == "ok":
             return ("%s: success reported although %d acquisition(s) failed during the call (object state %s)"
                     % (op, dinj, st), name + ":ok-despite-fault")
